@@ -8,6 +8,35 @@ from props import decoder_common as dc
 
 MODULES = ['FeVerif.Props.C04']
 MAXES = [0, 8, 140, 1 << 24]
+# how the caller hands a chunk over (decoder_common.run_decoder): the property speaks of the byte stream, not of the Python object
+# that carries it, so every form must give the results of the immutable copy - and leave the caller's object as it was
+FORMS = ['bytes', 'bytes', 'bytearray', 'ba_clear_extend', 'ba_reuse', 'ba_wipe', 'memoryview', 'mv_bytearray', 'mv_recv_into']
+
+
+def stream_types(data):
+    """Message type numbers at every place that looks like a header (cheap; only used to choose callback types)."""
+    ts, i = [], data.find(b'\x2e\x31')
+    while i >= 0 and len(ts) < 40:
+        if i + 12 <= len(data):
+            ts.append(data[i + 10] | (data[i + 11] << 8))
+        i = data.find(b'\x2e\x31', i + 1)
+    return ts
+
+
+def late_callbacks(rng, data, chunks):
+    """A history of add_callback() calls made while the decoder is in use: typed and catch-all, between on_data() calls and from
+    inside a callback between two messages of one call, before and after messages of that type have been delivered."""
+    types = stream_types(data) + [10000, 13120, 9]
+    nmsg = max(1, min(12, len(data) // 24))
+    out = []
+    for _ in range(rng.choice([1, 2, 3, 5])):
+        t = None if rng.random() < 0.45 else rng.choice(types)
+        if rng.random() < 0.5:
+            at = ['call', rng.randrange(len(chunks) + 1)]
+        else:
+            at = ['msg', rng.randrange(nmsg)]
+        out.append({'at': at, 'type': t})
+    return out
 
 
 def cases(ctx, budget):
@@ -34,19 +63,33 @@ def cases(ctx, budget):
     return out
 
 
-def check_one(ctx, data, kinds, m, chunks, lines, pending, opts='random'):
+def check_one(ctx, data, kinds, m, chunks, lines, pending, opts='random', form='random', late='random'):
     typed = {10000: [], 13120: [], 9: []}
     as_ints = bool(chunks) and all(len(c) == 1 for c in chunks) and (len(data) % 2 == 0)
     if opts == 'random':
         opts = dc.decoder_options(ctx.rng) if ctx.rng.random() < 0.7 else None
-    calls, flat, err, cb = dc.run_decoder(chunks, m, use_callback=True, as_ints=as_ints, typed_callbacks=typed, opts=opts)
+    if form == 'random':
+        form = ctx.rng.choice(FORMS)
+    if late == 'random':
+        late = late_callbacks(ctx.rng, data, chunks) if ctx.rng.random() < 0.6 else None
+    late = [{'at': list(L['at']), 'type': L['type']} for L in late] if late else None
+    replay = {'stream': data.hex(), 'tokens': kinds, 'max_payload': m, 'chunks': [c.hex() for c in chunks], 'options': opts,
+              'form': form, 'late': [dict(L) for L in late] if late else None}
+    calls, flat, err, cb = dc.run_decoder(chunks, m, use_callback=True, as_ints=as_ints, typed_callbacks=typed, opts=opts,
+                                          form=form, late=late, check_arg=True)
     if as_ints:
         ctx.count('fed_as_single_ints')
+    else:
+        ctx.count('form_' + form)
+    if late:
+        ctx.count('late_callback_histories')
     ctx.count('warn_on_error_%s' % (opts or {}).get('warn_on_error', 'none'))
-    replay = {'stream': data.hex(), 'tokens': kinds, 'max_payload': m, 'chunks': [c.hex() for c in chunks], 'options': opts}
     if err is not None:
         if err.startswith('SharedResult'):
             ctx.violation('C04/result-list-shared-between-calls', err, replay)
+            return
+        if err.startswith('ArgumentModified'):
+            ctx.violation('C04/caller-data-modified', err, replay)
             return
         ctx.violation('C04/decoder-raised', 'on_data raised %s' % err, replay)
         return
@@ -59,10 +102,45 @@ def check_one(ctx, data, kinds, m, chunks, lines, pending, opts='random'):
         if got != want:
             ctx.violation('C04/typed-callbacks-differ', 'callback for type %d saw offsets %s, returned messages of that type are at %s' %
                           (t, got[:10], want[:10]), replay)
-    pending.append((replay, calls, flat, cb, data, m))
+    pending.append((replay, calls, flat, (cb, late), data, m))
+
+
+def judge_late(ctx, replay, flat, late, data, accepted):
+    """Every callback registered while the decoder was in use received exactly the accepted messages (of its type) that
+    came after its registration, once each and in order. `accepted` = the (offset, length) list of the left-to-right scan
+    (the Lean oracle), already found equal to the returned list. A callback registered from inside a callback while
+    message n is delivered may or may not receive message n itself; it must receive every later one."""
+    for L in late or []:
+        if L.get('sink') is None:
+            continue
+        t, n0, at = L['type'], L['n0'], L['at']
+        sel = [k for k in range(len(flat)) if t is None or int(flat[k]['header'].message_type) == t]
+        want = [accepted[k] for k in sel if k >= n0 + (1 if at[0] == 'msg' else 0)]
+        optional = [accepted[k] for k in sel if k == n0] if at[0] == 'msg' else []
+        got = [(a[3], len(a[2])) if len(a) >= 4 else None for a in L['sink']]
+        if got != want and got != optional + want:
+            ctx.count('late_callback_failures')
+            ctx.violation('C04/late-callback-missed-messages' if len(got) < len(want) else 'C04/late-callback-sequence-wrong',
+                          'callback for %s registered %s (%d messages delivered before) received (offset, length) %s; the scan '
+                          'accepts %s after that point' % ('every type' if t is None else 'type %d' % t,
+                                                           'before on_data() call %d' % at[1] if at[0] == 'call' else
+                                                           'from inside a callback during message %d' % at[1], n0, got[:12], want[:12]),
+                          replay)
+            return
+        for a in L['sink']:
+            if bytes(a[2]) != data[a[3]:a[3] + len(a[2])]:
+                ctx.violation('C04/late-callback-raw-bytes-wrong', 'callback received raw bytes that differ from the stream at %d' % a[3],
+                              replay)
+                return
+        ctx.count('late_callbacks_checked')
+        if want:
+            ctx.count('late_callbacks_with_messages_after_registration')
+        if n0 and t is None and want:
+            ctx.count('late_catch_all_after_earlier_messages')
 
 
 def judge(ctx, replay, calls, flat, cb, data, m, model_out, scan_out):
+    cb, late = cb if isinstance(cb, tuple) else (cb, None)
     impl = ';'.join(calls)
     if impl != model_out:
         ctx.disagree('decoder != model: impl=%s model=%s' % (impl[:200], model_out[:200]), replay)
@@ -90,6 +168,7 @@ def judge(ctx, replay, calls, flat, cb, data, m, model_out, scan_out):
             ctx.violation('C04/buffer-unbounded', 'buffer holds %d bytes with max payload %d' % (buflen, m), replay)
     if len(cb) != len(flat):
         ctx.violation('C04/callbacks-differ', 'callbacks saw %d messages, return value has %d' % (len(cb), len(flat)), replay)
+    judge_late(ctx, replay, flat, late, data, [(d['offset'], len(d['raw'])) for d in flat])
     ctx.count('messages_returned', len(flat))
 
 
@@ -98,7 +177,8 @@ def run(ctx, budget):
     for r in fv.corpus('C04'):          # regression corpus first
         if 'stream' in r and 'chunks' in r:
             check_one(ctx, bytes.fromhex(r['stream']), r.get('tokens', 'corpus'), r.get('max_payload', 1 << 24),
-                      [bytes.fromhex(c) for c in r['chunks']], lines, pending, opts=r.get('options'))
+                      [bytes.fromhex(c) for c in r['chunks']], lines, pending, opts=r.get('options'),
+                      form=r.get('form', 'bytes'), late=r.get('late'))
             ctx.count('corpus_cases')
     allcases = cases(ctx, budget)
     for data, kinds in allcases:
@@ -116,14 +196,41 @@ def run(ctx, budget):
         ctx.cov['traces_validated_against_impl'] += 1
         if flat and len(ctx.cov['samples']) < 4 and len(data) < 200:
             ctx.sample({'request': lines[2 * i][:300], 'impl_and_model': outs[2 * i]})
-    # return_bytes / return_offset settings: shapes only
+    # return_bytes / return_offset settings: shapes, and the callbacks (registered before, between and during calls) get the
+    # same messages whatever the result tuples contain
     for rb in (False, True):
         for ro in (False, True):
-            data, kinds = gen.stream(ctx.rng, 4, 'VUZ')
-            calls, flat, err, _ = dc.run_decoder([data], 1 << 24, return_bytes=rb, return_offset=ro)
-            if err or len(flat) != 4:
-                ctx.violation('C04/return-flags', 'return_bytes=%s return_offset=%s: %s results, err=%s' % (rb, ro, len(flat), err),
-                              {'stream': data.hex(), 'return_bytes': rb, 'return_offset': ro})
+            for rep in range(6 if ctx.thorough else 3):
+                data, kinds = gen.stream(ctx.rng, 4, 'VUZ')
+                chunks = [data] if rep == 0 else ctx.rng.choice(gen.chunkings(ctx.rng, data)[2:])
+                form = ctx.rng.choice(FORMS)
+                late = late_callbacks(ctx.rng, data, chunks) + [{'at': ['call', len(chunks) // 2], 'type': None}, {'at': ['msg', 1], 'type': None}]
+                replay = {'stream': data.hex(), 'return_bytes': rb, 'return_offset': ro, 'chunks': [c.hex() for c in chunks],
+                          'form': form, 'late': [dict(L) for L in late]}
+                calls, flat, err, _ = dc.run_decoder(chunks, 1 << 24, return_bytes=rb, return_offset=ro, form=form, late=late,
+                                                     check_arg=True)
+                if err or len(flat) != 4:
+                    ctx.violation('C04/return-flags', 'return_bytes=%s return_offset=%s: %s results, err=%s' % (rb, ro, len(flat), err),
+                                  replay)
+                    continue
+                width = 2 + int(rb) + int(ro)
+                fields = [dc.header_fields(d['header']) for d in flat]
+                for L in late:
+                    if L.get('sink') is None:
+                        continue
+                    t, n0, at = L['type'], L['n0'], L['at']
+                    sel = [k for k in range(4) if t is None or fields[k][4] == t]
+                    want = [fields[k] for k in sel if k >= n0 + (1 if at[0] == 'msg' else 0)]
+                    optional = [fields[k] for k in sel if k == n0] if at[0] == 'msg' else []
+                    got = [dc.header_fields(a[0]) for a in L['sink']]
+                    if (got != want and got != optional + want) or any(len(a) != width for a in L['sink']):
+                        ctx.violation('C04/return-flags-late-callback',
+                                      'return_bytes=%s return_offset=%s: callback for %s registered at %s received messages with sequence '
+                                      'numbers %s (argument counts %s), the messages after that point have %s (and %d arguments)' %
+                                      (rb, ro, t, at, [g[5] for g in got], sorted(set(len(a) for a in L['sink'])),
+                                       [w[5] for w in want], width), replay)
+                        break
+                ctx.count('return_flag_histories')
 
 
 def search(ctx):
@@ -157,7 +264,8 @@ def replay(ctx, path):
     data = bytes.fromhex(r['stream'])
     chunks = [bytes.fromhex(c) for c in r['chunks']]
     lines, pending = [], []
-    check_one(ctx, data, r.get('tokens', ''), r['max_payload'], chunks, lines, pending, opts=r.get('options'))
+    check_one(ctx, data, r.get('tokens', ''), r['max_payload'], chunks, lines, pending, opts=r.get('options'),
+              form=r.get('form', 'bytes'), late=r.get('late'))
     outs = ctx.driver(lines)
     for i, p in enumerate(pending):
         judge(ctx, *p, outs[2 * i], outs[2 * i + 1])
